@@ -13,6 +13,10 @@ import z3
 from .core import Ctx, SymInt, select
 
 _orig = {}
+
+
+class Tagged(int):
+    """a plain int with object identity (concrete replays)"""
 _NAMES = ["shuffle", "choice", "choices", "randrange", "randint", "random", "uniform", "sample"]
 
 
@@ -45,6 +49,9 @@ def shuffle(x):
     if policy is not None and ctx.mode == "sym":
         policy(ctx, orig, ps, rec)  # harness-declared reduction of the permutation space (recorded as an assumption)
     new = [select(orig, p) for p in ps]
+    if ctx.mode == "conc":
+        # give every shuffled integer its own identity (an int subclass), so that harnesses can follow where a stub ends up
+        new = [Tagged(v) if type(v) is int else v for v in new]
     x[:] = new
     rec["perm"] = ps
     rec["result"] = new
